@@ -93,6 +93,12 @@ impl SignBus for ScriptBus {
 }
 
 /// A controller operation token: CFG.a.t CIN.a.t SND.a.pages SHW.a.fuel LNX.a.fuel BYE.a
+/// Is this an SND operation with a page literal that Page::from_bytes refuses?
+pub fn snd_unconstructible(op: &str) -> bool {
+    let p: Vec<&str> = op.splitn(3, '.').collect();
+    p[0] == "SND" && guarded(|| try_pages_of_str(p[2]).is_none()).unwrap_or(true)
+}
+
 pub fn run_cop(op: &str, bus: Rc<RefCell<dyn SignBus>>) -> Option<Result<String, SignError>> {
     let p: Vec<&str> = op.splitn(3, '.').collect();
     let a = Address(num::<u16>(p[1]));
@@ -319,6 +325,10 @@ fn eval_case_inner(line: &str) -> String {
             format!("{}# {}", out, pages.join(";"))
         }
         "CT" => {
+            if snd_unconstructible(t[1]) {
+                // a page literal the library refuses to build (wrong byte length): nothing to send
+                return " => NOPAGE".to_string();
+            }
             let script: Vec<Reply> = t[2..].iter().map(|s| reply_of_str(s)).collect();
             let bus = Rc::new(RefCell::new(ScriptBus::new(script)));
             let r = run_cop(t[1], bus.clone());
@@ -426,7 +436,24 @@ fn eval_pg(t: &[&str]) -> String {
         None => "P".to_string(),
         Some(i) => i.to_string(),
     };
-    format!("{}# {} {} {} {}", out, idtok, page.width(), page.height(), hex_of_bytes(page.as_bytes()))
+    // "building a page from raw bytes ... equals the page that produced those bytes": derived equality and hash of
+    // the page rebuilt from its own bytes, after whatever history of operations this page has seen
+    let eq = guarded(|| {
+        use std::collections::hash_map::DefaultHasher;
+        use std::hash::{Hash, Hasher};
+        let bytes = page.as_bytes().to_vec();
+        match Page::from_bytes(page.width(), page.height(), bytes) {
+            Ok(q) => {
+                let (mut h1, mut h2) = (DefaultHasher::new(), DefaultHasher::new());
+                q.hash(&mut h1);
+                page.hash(&mut h2);
+                q == page && page == q && h1.finish() == h2.finish() && page.clone() == page
+            }
+            Err(_) => false,
+        }
+    })
+    .unwrap_or(false);
+    format!("{}# {} {} {} {} eq={}", out, idtok, page.width(), page.height(), hex_of_bytes(page.as_bytes()), eq as u8)
 }
 
 #[allow(dead_code)]
